@@ -12,6 +12,7 @@ import (
 	"fmt"
 	"io"
 	"log/slog"
+	"math/rand"
 	"os"
 	"os/exec"
 	"reflect"
@@ -504,6 +505,244 @@ func describe(st *step) string {
 	}
 }
 
+// ---------------------------------------------------------------- race pairs
+// Two steps that the specification treats as atomic are issued concurrently on the real nodes; the
+// outcome must equal one of the two serializations (whose expectations TLC computed).
+type raceCase struct {
+	Name   string `json:"name"`
+	Prefix []step `json:"prefix"`
+	AB     []step `json:"ab"` // the two steps in the order A;B with expectations
+	BA     []step `json:"ba"` // the order B;A as far as the specification follows it (1 or 2 steps)
+}
+
+type obs struct {
+	ok   bool
+	head *proto.EntryId
+	err  error
+}
+
+// execFree performs a step without judging its direct outcome
+func (r *runner) execFree(st *step) obs {
+	s := r.sim
+	switch st.A {
+	case "NewTerm":
+		ch := make(chan obs, 1)
+		go func() { h, err := s.NewTerm(st.N, st.T-1); ch <- obs{ok: err == nil, head: h, err: err} }()
+		deadline := time.Now().Add(r.timeout + 5*time.Second)
+		for {
+			select {
+			case o := <-ch:
+				return o
+			case <-time.After(time.Millisecond):
+				if s.IsParked("sync", st.N, st.N) {
+					_ = s.Release("sync", st.N, st.N, time.Millisecond)
+				}
+				if time.Now().After(deadline) {
+					return obs{err: fmt.Errorf("NewTerm does not return")}
+				}
+			}
+		}
+	case "Write":
+		_, err := s.ClientWrite(st.N, st.V)
+		return obs{ok: err == nil, err: err}
+	case "Append":
+		err := s.DeliverAppend(st.L, st.F)
+		return obs{ok: err == nil, err: err}
+	case "Ack":
+		err := s.DeliverAck(st.F, st.L)
+		return obs{ok: err == nil, err: err}
+	}
+	return obs{err: fmt.Errorf("step %s not supported in a race", st.A)}
+}
+
+func sameOutcome(st *step, o obs) string {
+	if st.A != "NewTerm" {
+		return ""
+	}
+	if st.Ok != o.ok {
+		return fmt.Sprintf("NewTerm(%s,%d): ok spec %v code %v (%v)", st.N, st.T, st.Ok, o.ok, o.err)
+	}
+	if o.ok {
+		w := st.Head.real()
+		if o.head.Term != w.Term || o.head.Offset != w.Offset {
+			return fmt.Sprintf("NewTerm(%s,%d) reported head (t=%d,o=%d), this order demands (t=%d,o=%d)", st.N, st.T,
+				o.head.Term+1, o.head.Offset+1, st.Head.T, st.Head.O)
+		}
+	}
+	return ""
+}
+
+func raceOne(rc *raceCase, timeout time.Duration, jitter time.Duration, swap bool) (*mismatch, error) {
+	names := []string{}
+	for n := range rc.AB[0].Exp.Nodes {
+		names = append(names, n)
+	}
+	sort.Strings(names)
+	sim, err := cluster.New(names)
+	if err != nil {
+		return nil, err
+	}
+	defer sim.Close()
+	r := &runner{sim: sim, timeout: timeout, blStarted: map[string]bool{}}
+	for i := range rc.Prefix {
+		st := &rc.Prefix[i]
+		if st.A == "Idle" {
+			continue
+		}
+		if err := r.exec(st); err != nil {
+			return &mismatch{Step: i, Action: st.A, Field: "prefix", What: "prefix: " + err.Error()}, nil
+		}
+		if f, w := r.await(st.Exp); f != "" {
+			return &mismatch{Step: i, Action: st.A, Field: "prefix", What: "prefix: " + w}, nil
+		}
+	}
+	nw := len(r.wOff)
+	a, b := &rc.AB[0], &rc.AB[1]
+	first, second := a, b
+	if swap {
+		first, second = b, a
+	}
+	var oa, ob obs
+	done := make(chan struct{}, 2)
+	run := func(st *step) {
+		o := r.execFree(st)
+		if st == a {
+			oa = o
+		} else {
+			ob = o
+		}
+		done <- struct{}{}
+	}
+	// Write steps must be registered in a fixed order for the bookkeeping: issue them through a lock-free path
+	go run(first)
+	if jitter > 0 {
+		time.Sleep(jitter)
+	}
+	go run(second)
+	for k := 0; k < 2; k++ {
+		select {
+		case <-done:
+		case <-time.After(timeout + 10*time.Second):
+			return &mismatch{Step: -1, Action: a.A + "||" + b.A, Field: "race", What: "a concurrently issued step does not return"}, nil
+		}
+	}
+	// judge: one of the two serializations
+	var why []string
+	orders := [][]step{rc.AB, rc.BA}
+	for k, ord := range orders {
+		if len(ord) == 0 {
+			continue
+		}
+		// direct outcomes
+		bad := ""
+		for i := range ord {
+			st := &ord[i]
+			o := oa
+			if st.A == b.A && (st.N == b.N && st.L == b.L && st.F == b.F && st.V == b.V) {
+				o = ob
+			}
+			if d := sameOutcome(st, o); d != "" {
+				bad = d
+			}
+		}
+		// offsets of the racing writes in this order
+		ws := sim.Writes()
+		for len(r.wOff) < len(ws) {
+			r.wOff = append(r.wOff, -1)
+			r.wT = append(r.wT, -1)
+			r.wNode = append(r.wNode, ws[len(r.wOff)-1].Node)
+		}
+		for i := range ord {
+			st := &ord[i]
+			if st.A != "Write" {
+				continue
+			}
+			for j := nw; j < len(ws); j++ {
+				if ws[j].Val == st.V && ws[j].Node == st.N {
+					r.wOff[j], r.wT[j] = st.Off, st.T
+				}
+			}
+		}
+		if bad == "" {
+			saved := r.timeout
+			r.timeout = timeout / 2
+			f, w := r.await(ord[len(ord)-1].Exp)
+			r.timeout = saved
+			if f == "" {
+				return nil, nil
+			}
+			bad = f + ": " + w
+		}
+		why = append(why, fmt.Sprintf("order %d (%s): %s", k+1, describe(&ord[0]), bad))
+	}
+	return &mismatch{Step: len(rc.Prefix), Action: describe(a) + " || " + describe(b), Field: "race",
+		What: "concurrent steps left the nodes in a state that is neither serialization: " + strings.Join(why, " | ")}, nil
+}
+
+func raceMain(args []string) {
+	fs := flag.NewFlagSet("race", flag.ExitOnError)
+	in := fs.String("in", "", "")
+	out := fs.String("out", "", "")
+	reps := fs.Int("reps", 20, "")
+	timeout := fs.Duration("timeout", 3*time.Second, "")
+	seed := fs.Int64("seed", 1, "")
+	_ = fs.Parse(args)
+	slog.SetDefault(slog.New(slog.NewTextHandler(io.Discard, nil)))
+	data, err := os.ReadFile(*in)
+	if err != nil {
+		fmt.Fprintln(os.Stderr, err)
+		os.Exit(2)
+	}
+	type raceRes struct {
+		Cases      int            `json:"cases"`
+		Trials     int            `json:"trials"`
+		Mismatches []mismatch     `json:"mismatches"`
+		ByCase     map[string]int `json:"trials_by_case"`
+	}
+	res := raceRes{ByCase: map[string]int{}}
+	rng := rand.New(rand.NewSource(*seed))
+	for _, l := range strings.Split(string(data), "\n") {
+		if strings.TrimSpace(l) == "" {
+			continue
+		}
+		var rc raceCase
+		if err := json.Unmarshal([]byte(l), &rc); err != nil {
+			fmt.Fprintln(os.Stderr, "bad race case:", err)
+			os.Exit(2)
+		}
+		res.Cases++
+		found := 0
+		for k := 0; k < *reps && found == 0; k++ {
+			jit := time.Duration(rng.Intn(400)) * time.Microsecond
+			if k%4 == 0 {
+				jit = 0
+			}
+			mm, err := raceOne(&rc, *timeout, jit, k%2 == 1)
+			if err != nil {
+				fmt.Fprintln(os.Stderr, "harness failure:", err)
+				os.Exit(2)
+			}
+			res.Trials++
+			res.ByCase[rc.Name]++
+			if mm != nil {
+				if mm.Field == "prefix" {
+					fmt.Fprintln(os.Stderr, "race prefix does not replay:", mm.What)
+					os.Exit(2)
+				}
+				mm.What = rc.Name + ": " + mm.What
+				mm.Behaviour = append(append([]step{}, rc.Prefix...), rc.AB...)
+				res.Mismatches = append(res.Mismatches, *mm)
+				found++
+			}
+		}
+	}
+	b, _ := json.Marshal(res)
+	if err := os.WriteFile(*out, b, 0o644); err != nil {
+		fmt.Fprintln(os.Stderr, err)
+		os.Exit(2)
+	}
+}
+
 type result struct {
 	Behaviours  int            `json:"behaviours"`
 	Steps       int            `json:"steps"`
@@ -600,6 +839,10 @@ func workerMain(args []string) {
 func main() {
 	if len(os.Args) >= 2 && os.Args[1] == "worker" {
 		workerMain(os.Args[2:])
+		return
+	}
+	if len(os.Args) >= 2 && os.Args[1] == "race" {
+		raceMain(os.Args[2:])
 		return
 	}
 	if len(os.Args) < 2 || os.Args[1] != "replay" {
